@@ -62,7 +62,7 @@ func (l *Lexer) scanLineStart() Token {
 		return l.scanNewline()
 	}
 
-	if l.peek() == ';' {
+	if l.peek() == ';' || l.peek() == '#' {
 		return l.scanComment()
 	}
 
